@@ -55,7 +55,15 @@ def simulate(kind, values, cancel_step=None, cancel_time=None, silent=False):
               faults=WireFaults(delay_buckets=(50e-6, 20e-6, 150e-6, 600e-6)))
     world, bus = env.world, env.bus
     ec = FastEtherCat("sim0") if fast else EtherCat("sim0")
-    specs = wl.gen_specs(tape, "c24", max_terms=3, max_sz=6)
+    many = tape.chance("c24/many-terminals", 3)
+    if many:
+        # a group with more read-write terminals than one frame has datagrams (they share
+        # the two FMMU datagrams): 16-19 small output terminals
+        specs = [dict(in_sz=0 if tape.chance("c24/many-no-input", 60) else 1, out_sz=1,
+                      n_fmmu=2, use_fmmu=True) for _ in range(16 + tape.draw("c24/nmany", 4))]
+        world.count("c24/group-with-more-than-15-read-write-terminals")
+    else:
+        specs = wl.gen_specs(tape, "c24", max_terms=3, max_sz=6)
     sims, terms = wl.build(env, ec, specs)
     for st in sims:
         maxd = tape.draw("c24/al-maxdelay", 3)
@@ -63,11 +71,14 @@ def simulate(kind, values, cancel_step=None, cancel_time=None, silent=False):
         # what an earlier master (or a watchdog trip) left behind: any state, maybe an error
         st.al_state = [1, 1, 1, 2, 4, 8][tape.draw("c24/al-start", 6)]
         st.al_error = tape.chance("c24/al-start-error", 20)
-    links = wl.gen_links(tape, specs, "c24", max_vars=2)
+    if many:
+        links = [dict(term=k, sm="out", pos=0, size="B") for k in range(len(specs))]
+    else:
+        links = wl.gen_links(tape, specs, "c24", max_vars=2)
     if not links:
         links = [dict(term=0, sm="in" if specs[0]["in_sz"] else "out", pos=0, size="B")]
     devices = build_devices(tape, terms, links, "c24")
-    obs = dict(steps=0, cycles=0, outcome=None, ref_time=None, started=False)
+    obs = dict(steps=0, cycles=0, outcome=None, ref_time=None, started=False, many=many)
     cfg_draws = len(tape.values)
     rw_terms = {ln["term"] for ln in links if ln["sm"] == "out"}
     readonly = [k for k in range(len(specs)) if k not in rw_terms
@@ -344,7 +355,11 @@ def run(tape, scenario):
             violations.append({"rule": r[0], "params": r[2], "detail": r[1]})
         S = ref["ref_steps"]
     stats["c24/steps-max"] = S
-    for n in range(1, S + 1):
+    steps = range(1, S + 1)
+    if ref.get("many"):
+        # (a big configuration: every third step and the last ones instead of all of them)
+        steps = sorted(set(range(1, S + 1, 3)) | set(range(max(1, S - 3), S + 1)))
+    for n in steps:
         if violations:
             break
         obs = sim(kind, values, cancel_step=n)
